@@ -799,7 +799,7 @@ func (c *ctx) evalCase(setup int, h []Op, src string, emit bool) {
 		c.rep.Count("setup:" + setupName(setup))
 		c.rep.Count(fmt.Sprintf("len:%02d-%02d", len(h)/10*10, len(h)/10*10+9))
 		c.rep.Count("src:" + src)
-		term := fmt.Sprintf("(%d, (%s, %s, %d), %s, %s)", c.id, base.coreCoq(), base.dirtCoq(), base.Next, hlib.CoqList(pairs), res.fin.sdbCoq(base))
+		term := fmt.Sprintf("CS (%d, (%s, %s, %d), %s, %s)", c.id, base.coreCoq(), base.dirtCoq(), base.Next, hlib.CoqList(pairs), res.fin.sdbCoq(base))
 		c.cw.Add(term, cj)
 		c.rep.TracesValidated++
 		c.rep.Sample(cj)
@@ -1014,10 +1014,18 @@ func main() {
 	rep := hlib.NewReport("C12", "histories of StateDB mutators with nested Snapshot/RevertToSnapshot on the real StateDB over 6 pre-states "+
 		"(corpus incl. the F8 witness, exhaustive prefix+reverted-body sequences over a 22-op alphabet, random long histories); "+
 		"non-trivial = at least one successful revert that undoes journal entries; distinct by (pre-state, set of op kinds, number of such reverts)")
-	cw := hlib.NewCaseWriter(f.Out, "From Coq Require Import List NArith ZArith Bool.\nFrom GQ Require Import Lib.Key Lib.SMap Model.C12.\nImport ListNotations.\nLocal Open Scope N_scope.\n", "C12.case", 100)
+	cw := hlib.NewCaseWriter(f.Out, "From Coq Require Import List NArith ZArith Bool.\nFrom GQ Require Import Lib.Key Lib.SMap Model.C12.\nImport ListNotations.\nLocal Open Scope N_scope.\n", "C12.case", 65)
 	c := &ctx{rep: rep, cw: cw, perSig: map[string]int{}}
 
 	if f.Replay != "" {
+		var ej EvmCase
+		hlib.ReadReplayCase(f.Replay, &ej)
+		if ej.Evm {
+			evmCases(c, ej.Shape)
+			cw.Close()
+			rep.Write(f.Out)
+			return
+		}
 		var cj caseJS
 		hlib.ReadReplayCase(f.Replay, &cj)
 		c.id = cj.ID
@@ -1033,6 +1041,7 @@ func main() {
 	for _, cc := range corpus() {
 		c.evalCase(cc.setup, cc.ops, "corpus", true)
 	}
+	evmCases(c, "")
 	al := alphabet()
 	small := append(append([]Op{}, al[:9]...), Op{K: "Suicide", A: 1}, Op{K: "AddBalance", A: 1, V: 2}, Op{K: "AddLog", V: 1})
 	if f.Tier == "thorough" {
@@ -1041,14 +1050,14 @@ func main() {
 		rep.Exhaustive = true
 		rep.Note(fmt.Sprintf("exhaustive: %d histories = every prefix+reverted body with |prefix|+|body| <= 3 over the 22-op alphabet on all 6 pre-states, <= 4 over a 12-op alphabet on pre-states 1,5; monitors on all, Coq cases for a sample", n))
 	} else {
-		n := exhaustive(c, al, 2, []int{0, 1, 2, 3, 4, 5}, 25, rng.Fork())
+		n := exhaustive(c, al, 2, []int{0, 1, 2, 3, 4, 5}, 32, rng.Fork())
 		m := 0
 		sr := rng.Fork()
 		for ; m < 1500; m++ { // sampled depth-3 histories
 			cur := []Op{al[sr.Intn(len(al))], al[sr.Intn(len(al))], al[sr.Intn(len(al))]}
 			split := sr.Intn(3)
 			h := append(append(append(append([]Op{}, cur[:split]...), snap()), cur[split:]...), rev(0))
-			c.evalCase([]int{1, 1, 5, 2, 3}[sr.Intn(5)], h, "sampled-depth3", sr.Intn(15) == 0)
+			c.evalCase([]int{1, 1, 5, 2, 3}[sr.Intn(5)], h, "sampled-depth3", sr.Intn(20) == 0)
 		}
 		rep.Note(fmt.Sprintf("exhaustive: %d histories = every prefix+reverted body with |prefix|+|body| <= 2 over the 22-op alphabet on all 6 pre-states, plus %d sampled of length 3; monitors on all, Coq cases for a sample", n, m))
 	}
